@@ -7,12 +7,12 @@ CLAIMED = {
     "C01": dict(
         level="exploration", design="§6 C01",
         technique="deterministic simulation: real App::run + ThreadPool on humsim's in-memory TCP and virtual clock, reference HTTP clients with explicit stream segmentation, seeded schedules and network faults, reference connection model as oracle",
-        text="Seeded search over application configurations, client scripts (1..8 clients, 1..6 requests each over methods x targets x versions x Connection x bodies x malformed kinds x idle gaps), explicit segmentations of the byte stream (one byte per segment up to several requests per segment), lock-step and pipelined pacing, endings (close/half-close/RST/truncation), short reads/writes, slow readers, latency, and thread schedules. Oracle: strict response-stream grammar, count/order, version/Date/Server/CORS/Content-Length/body, keep-alive disposition and self-delimitation, 400/408 mapping with virtual-time lower bound, panic isolation, handler log = requests sent. Sampling: a clean batch is evidence, not proof. Later additions: a 150 000-byte response route, a CORS configuration whose list entries are substrings of earlier ones, the Date window anchored per request at the segment carrying its last byte, short writes in the tokio transport.",
+        text="Seeded search over application configurations, client scripts (1..8 clients, 1..6 requests each over methods x targets x versions x Connection x bodies x malformed kinds x idle gaps), explicit segmentations of the byte stream (one byte per segment up to several requests per segment), lock-step and pipelined pacing, endings (close/half-close/RST/truncation), short reads/writes, slow readers, latency, and thread schedules. Oracle: strict response-stream grammar, count/order, version/Date/Server/CORS/Content-Length/body, keep-alive disposition and self-delimitation, 400/408 mapping with virtual-time lower bound, panic isolation, handler log = requests sent. Sampling: a clean batch is evidence, not proof. Later additions: a 150 000-byte response route, a CORS configuration whose list entries are substrings of earlier ones, the Date window anchored per request at the segment carrying its last byte, short writes in the tokio transport. Also: readers that stall for longer than the connection timeout while a large response is being written.",
         note="Trusted: humsim scheduler and TCP model (reliable ordered byte stream; close with unread data modelled as orderly FIN; server-side receive window >= one client script); the reference HTTP grammar; both runtimes: the threaded one under the humsim thread scheduler, the tokio one (twin phase C01T, engine humsim-tk) on a paused current_thread runtime over humsim::tokio_net."),
     "C02": dict(
         level="exploration", design="§6 C02",
         technique="deterministic simulation of the byte source: Request::from_stream over a scripted reader whose read-size plan (every split point, bytewise, random chunkings, EINTR) is the schedule; reference request model as oracle; serialise-parse round trip",
-        text="Generated well-formed request models (methods, paths, queries, 0..60 headers with repeated names in random case, UTF-8 values, Cookie and X-Forwarded-For lists, bodies to 64 KiB, lines over 8 KiB) parsed under every two-chunk split of messages <= 2 KiB plus bytewise/random/EINTR plans; parsed fields must equal the model under every plan and survive serialise+parse. Split points of each sampled message are enumerated; models are sampled. Later additions: the colon of a header line followed by one space / nothing / a tab / two spaces, header names in random per-letter case, get_cookie looked up for every name, suffix, embedded k= and an absent name on cookie lists with overlapping names and values.",
+        text="Generated well-formed request models (methods, paths, queries, 0..60 headers with repeated names in random case, UTF-8 values, Cookie and X-Forwarded-For lists, bodies to 64 KiB, lines over 8 KiB) parsed under every two-chunk split of messages <= 2 KiB plus bytewise/random/EINTR plans; parsed fields must equal the model under every plan and survive serialise+parse. Split points of each sampled message are enumerated; models are sampled. Later additions: the colon of a header line followed by one space / nothing / a tab / two spaces, header names in random per-letter case, get_cookie looked up for every name, suffix, embedded k= and an absent name on cookie lists with overlapping names and values. Also: X-Forwarded-For chains of 31..200 entries.",
         note="Trusted: the reference model/renderer; sync parser and (twin phase C02T) the async parser over a scripted AsyncRead; at most one Cookie / X-Forwarded-For field per request."),
     "C03": dict(
         level="fault_enumeration", design="§6 C03",
@@ -27,12 +27,12 @@ CLAIMED = {
     "C10": dict(
         level="fault_enumeration", design="§6 C10",
         technique="scripted-reader simulation of Frame::from_stream: all 65 536 two-byte headers x read plans x truncation at every offset (EOF and reset), plus seeded random frames against a reference RFC 6455 codec",
-        text="Every two-byte frame header is enumerated with a complete remainder and decoded under whole/bytewise/every-split/random/EINTR read plans, and truncated at every offset; reserved opcodes must be rejected, truncations must be read errors, complete frames must decode to the reference frame with the payload unmasked. Random frames over FIN x RSV x opcode x mask x the boundary length set up to 1 MiB check the encoder against the reference layout and the round trip. Later additions: the all-zero, all-ones, single-bit and four-equal-bytes mask keys.",
+        text="Every two-byte frame header is enumerated with a complete remainder and decoded under whole/bytewise/every-split/random/EINTR read plans, and truncated at every offset; reserved opcodes must be rejected, truncations must be read errors, complete frames must decode to the reference frame with the payload unmasked. Random frames over FIN x RSV x opcode x mask x the boundary length set up to 1 MiB check the encoder against the reference layout and the round trip. Later additions: the all-zero, all-ones, single-bit and four-equal-bytes mask keys. Also: 64-bit lengths with high bits set above a small low part (truncated by construction).",
         note="Trusted: reference codec; the cfg-gated hook humphrey_ws::verif only forwards to the private Frame. Claimed lengths <= 1 MiB here (huge claims are C03's)."),
     "C11": dict(
         level="exploration", design="§6 C11",
         technique="deterministic simulation: real App + websocket_handler on humsim's TCP with a reference RFC 6455 client (own SHA-1/Base64), scripted frame streams with fragmentation/interleaved control frames, delivery cuts inside header/extended length/key, blocking and non-blocking handlers, seeded schedules",
-        text="Seeded client scripts of masked frames (text/binary/continuation/ping/pong/close, payloads to 70 KiB incl. the 125/126/65535/65536 boundaries, 1..5 fragments with interleaved control frames), any Sec-WebSocket-Key or none, byte-wise and header-splitting deliveries, endings by client Close / server drop / FIN / RST. Oracle: 101 with the reference accept key (no key: no upgrade), everything written after the 101 decodes as unmasked frames, server-side messages equal the reference reassembly, one Pong per Ping with the same payload, Close answered and reported, drop sends Close, nothing-yet only while no data frame has started to arrive (judged on the simulator's view of delivered bytes). Later additions: server-initiated messages after idle polls, slow-reading clients, a non-blocking-then-blocking handler mode, a Close between the fragments of a message, empty first fragments and empty continuations, key lengths around every SHA-1 padding boundary, the all-zero mask key.",
+        text="Seeded client scripts of masked frames (text/binary/continuation/ping/pong/close, payloads to 70 KiB incl. the 125/126/65535/65536 boundaries, 1..5 fragments with interleaved control frames), any Sec-WebSocket-Key or none, byte-wise and header-splitting deliveries, endings by client Close / server drop / FIN / RST. Oracle: 101 with the reference accept key (no key: no upgrade), everything written after the 101 decodes as unmasked frames, server-side messages equal the reference reassembly, one Pong per Ping with the same payload, Close answered and reported, drop sends Close, nothing-yet only while no data frame has started to arrive (judged on the simulator's view of delivered bytes). Later additions: server-initiated messages after idle polls, slow-reading clients, a non-blocking-then-blocking handler mode, a Close between the fragments of a message, empty first fragments and empty continuations, key lengths around every SHA-1 padding boundary, the all-zero mask key. Also: Apps with a connection timeout of 1..5 s and clients pausing up to 3 s after the handshake.",
         note="Trusted: reference codec/handshake; humsim TCP; a Close may be answered by any well-formed Close."),
     "C12": dict(
         level="exploration", design="§6 C12",
@@ -52,7 +52,7 @@ CLAIMED = {
     "C04": dict(
         level="exploration", design="§6 C04",
         technique="deterministic simulation: generated applications (host sub-apps, HTTP and WebSocket routes) served by the real App on the simulated network to 1..4 concurrent keep-alive connections; reference first-match router over an independent DP glob matcher",
-        text="Seeded generation of applications and request sequences (Host absent/exact/wildcard/with port/non-matching; paths matching several, one or no routes; queries; upgrade requests) with every handler answering its identity, observed at every position of a connection's history and under concurrency and seeded schedules; the answer must be the reference router's. Dominated by seeded configuration/input generation (stated in the evidence); sampling, not enumeration. Both runtimes (tokio as twin phase C04T).",
+        text="Seeded generation of applications and request sequences (Host absent/exact/wildcard/with port/non-matching; paths matching several, one or no routes; queries; upgrade requests) with every handler answering its identity, observed at every position of a connection's history and under concurrency and seeded schedules; the answer must be the reference router's. Dominated by seeded configuration/input generation (stated in the evidence); sampling, not enumeration. Both runtimes (tokio as twin phase C04T). Also: mixed-case host names spelled exactly as registered; paths with a literal *.",
         note="Trusted: the reference router and DP glob matcher; origin-form targets; both runtimes (the tokio one as twin phase C04T)."),
     "C07": dict(
         level="exploration", design="§6 C07",
@@ -62,20 +62,20 @@ CLAIMED = {
     "C08": dict(
         level="exploration", design="§6 C08",
         technique="deterministic simulation: real ThreadPool under the humsim baton scheduler, seeded random/sticky/PCT/round-robin schedules, real panics, stuck detection",
-        text="Seeded schedule search over lifecycle scripts (start, tasks incl. panicking/sleeping/barrier ones, stop x0..2, drop) of the real ThreadPool with its recovery thread; oracle: exactly-once counters, concurrency bound, barrier-of-N completion before and after panics, caller never stuck, every worker thread exits once the system is quiescent. Sampling, not enumeration: a clean batch is evidence, not proof.",
+        text="Seeded schedule search over lifecycle scripts (start, tasks incl. panicking/sleeping/barrier ones, stop x0..2, drop) of the real ThreadPool with its recovery thread; oracle: exactly-once counters, concurrency bound, barrier-of-N completion before and after panics, caller never stuck, every worker thread exits once the system is quiescent. Sampling, not enumeration: a clean batch is evidence, not proof. Also: panic payloads that are not strings (panic_any, resume_unwind with a typed error).",
         note="Trusted: the humsim scheduler (every Mutex/mpsc/spawn/join is a decision point; only one thread runs at a time, so races inside a single un-intercepted stretch of code are not explored); std's unwinding/poisoning are the real ones."),
 }
 
 CLAIMED["C19"] = dict(
     level="exploration", design="§6 C19",
     technique="deterministic simulation: the whole humphrey_server::server::main from a generated Config on humsim's network, clients connecting from arbitrary IPv4/IPv6 source addresses (only a simulated network allows that), scripted upstream for proxy routes, cache warming histories, seeded schedules",
-    text="Seeded configurations (block/forbidden x list contents x file/directory/proxy/redirect routes x cache on/off x threads) and clients from chosen addresses sending keep-alive request sequences with X-Forwarded-For absent or naming listed/unlisted addresses. Oracle: listed peer in block mode never receives a byte; listed peer or listed forwarded origin in forbidden mode gets 403 and never the route's content whatever headers it sends; all-unlisted clients are served the exact file / directory file / upstream response / redirect. Later additions: sub-directory without/with trailing slash and a missing file on the directory route; IPv4 clients on a dual-stack [::] listener (peers seen as ::ffff:a.b.c.d).",
+    text="Seeded configurations (block/forbidden x list contents x file/directory/proxy/redirect routes x cache on/off x threads) and clients from chosen addresses sending keep-alive request sequences with X-Forwarded-For absent or naming listed/unlisted addresses. Oracle: listed peer in block mode never receives a byte; listed peer or listed forwarded origin in forbidden mode gets 403 and never the route's content whatever headers it sends; all-unlisted clients are served the exact file / directory file / upstream response / redirect. Later additions: sub-directory without/with trailing slash and a missing file on the directory route; IPv4 clients on a dual-stack [::] listener (peers seen as ::ffff:a.b.c.d). Also: forwarding chains of 31..200 entries.",
     note="Trusted: humsim TCP (peer addresses are whatever the harness chooses); real std::fs on a scratch directory; a listed intermediate forwarding entry may be refused or served.")
 
 CLAIMED["C20"] = dict(
     level="exploration", design="§6 C20",
     technique="deterministic simulation: the real App::run with a shutdown receiver under the humsim scheduler, 0..16 connections scripted into chosen states at the virtual instant of the signal, pools incl. fully occupied ones, rendezvous and unbounded channels, unspecified bind addresses with the strict-connect knob, rebind after return",
-    text="Seeded traffic states at the instant of the signal (just connected, idle keep-alive, half-sent request, handler running 5 ms / 2 s, 150 KB response to a 512-byte-window reader, WebSocket open), signal before run / before the first connection / with traffic / with the pool occupied. Oracle: run returns Ok within 1 virtual second of the signal, the address can be bound again, a response that started arrives completely, requests fully sent >= 100 virtual ms before the signal are answered (detached workers keep running in the simulation). Later additions: the sender of the shutdown channel is kept alive until the scenario ends (a signal sent before run starts waiting must still end it).",
+    text="Seeded traffic states at the instant of the signal (just connected, idle keep-alive, half-sent request, handler running 5 ms / 2 s, 150 KB response to a 512-byte-window reader, WebSocket open), signal before run / before the first connection / with traffic / with the pool occupied. Oracle: run returns Ok within 1 virtual second of the signal, the address can be bound again, a response that started arrives completely, requests fully sent >= 100 virtual ms before the signal are answered (detached workers keep running in the simulation). Later additions: the sender of the shutdown channel is kept alive until the scenario ends (a signal sent before run starts waiting must still end it). Also: applications whose connection condition refuses connections when the signal comes (drain mode / connection limit).",
     note="Trusted: humsim scheduler/TCP/clock; threaded runtime (mpsc receiver) and, as twin phase C20T, the tokio runtime (CancellationToken).")
 
 NA = {
